@@ -38,7 +38,7 @@ RELEVANT = {
 }
 # functions outside every property's scope (not mutated)
 SKIP_FUNCS = {'check_timestamps', 'values', '__repr__', '__str__', 'to_json', '_load_datasets', '_determine_dataset_years',
-              '__daily_cubic_interp', '__get_daily_interp_subset', '__apply_bbox_pad', 'apply_pad', '_get_subset', 'var2dataset',
+              '__daily_cubic_interp', '__get_daily_interp_subset', '__apply_bbox_pad', 'apply_pad', 'var2dataset',
               '_var2var_in_file', 'openf', 'default', 'time', 'data', 'has', 'calls_by_stream_id', 'add', 'stream_ids',
               'aggregate_calls', 'extract_calls', '__rpr__'}
 SKIP_CLASSES = {'CFNetCDFStore', 'NetcdfStore', 'GeoNumpyDateEncoder', 'CreatorConfig', 'BaseStream', 'BaseStore', 'NcQcConfig'}
